@@ -549,6 +549,22 @@ def cases(tier, seed):
                             base = dict(n=n, d=d, field=field, form=form, solver=solver, prior=pick(priors, i), kind="mixed", rank=rank, seed=sd + i)
                             for cl in (clauses if thorough or not slow else clauses[:1] + clauses[2:5]):
                                 add(cl, base, icl("min_error", form, field, "dm", solver))
+            # ---- one ensemble, several vector layouts (1-D, column and row kets mixed)
+            if sd == seeds[0]:
+                for field in fields:
+                    for n, d in ((2, 2), (3, 2), (3, 3), (4, 3)):
+                        i += 1
+                        base = dict(n=n, d=d, field=field, form="dual", solver=solver, rep="mixed-layout", prior=pick(["uniform", "random"], i), kind="pure", seed=sd + i, phases=True)
+                        for cl in EX_GENERIC:
+                            add(cl, base, icl("min_error", "dual", field, "mixed-vector-layouts", solver))
+            # ---- density matrices stored Fortran-ordered
+            if sd == seeds[0]:
+                for field in fields:
+                    for n, d in ((2, 2), (3, 3)):
+                        i += 1
+                        base = dict(n=n, d=d, field=field, form="dual", solver=solver, rep="dm-F", prior=pick(["uniform", "random"], i), kind="pure", seed=sd + i, phases=True)
+                        for cl in EX_GENERIC:
+                            add(cl, base, icl("min_error", "dual", field, "fortran-ordered-dm", solver))
             # ---- (1, d) row vectors (accepted by to_density_matrix like columns)
             if sd == seeds[0]:
                 for field in fields:
@@ -662,6 +678,17 @@ def cases(tier, seed):
                 i += 1
                 base = dict(kind=kind, field=field, rep=pick(reps, i), seed=sd + i, rotate=True, **extra)
                 add("isad.false_on_not_antidist", base, "is_antidistinguishable/not-antidistinguishable/" + field)
+            if sd == seeds[0]:
+                for rp in ("row", "mixed-layout"):  # row kets, and one ensemble mixing 1-D / column / row kets
+                    for kind, extra in ANTI[:3]:
+                        i += 1
+                        base = dict(kind=kind, field=field, rep=rp, seed=sd + i, rotate=(field == "complex"), **extra)
+                        add("isad.true_on_antidist", base, "is_antidistinguishable/antidistinguishable-%s/%s" % (rp, field))
+                        add("cqo.zero_on_antidist", base, "common_quantum_overlap/antidistinguishable-%s/%s" % (rp, field))
+                    for kind, extra in NOT_ANTI[:2]:
+                        i += 1
+                        base = dict(kind=kind, field=field, rep=rp, seed=sd + i, rotate=True, **extra)
+                        add("isad.false_on_not_antidist", base, "is_antidistinguishable/not-antidistinguishable-%s/%s" % (rp, field))
             for d in (2, 3, 4):
                 for ov in (0.0, 0.3, 0.7071067811865476, 0.9, 1.0):
                     i += 1
